@@ -17,5 +17,5 @@ CONSTANTS
   MaxOps = 16
   Deterministic = FALSE
   Manual = TRUE
-INVARIANTS TypeOK ReadStreamIsRetainedSuffix ReadStateIsRefPage PaginationEnumerates PageAfterCursor
+INVARIANTS TypeOK ReadStreamIsRetainedSuffix ReadStateIsRefPage PageAfterCursor
 CHECK_DEADLOCK FALSE
